@@ -190,6 +190,18 @@ def check_case(tmp, rnd, stats, case_id, violations, tier):
             tgt = os.path.join(out, rel, e if e.endswith("index.rst") else e + ".rst")
             if not os.path.isfile(tgt):
                 bad("C14", {"index": rel, "dangling": e})
+    # C12: title and module name of every page = prefix . relative path without the .cmake extension
+    for rel, (dirs, files) in exp.items():
+        for f in files:
+            page = os.path.join(out, rel, ".".join(f.split(".")[:-1]) + ".rst")
+            if not os.path.isfile(page):
+                continue
+            ls = open(page).read().split("\n")
+            relp = os.path.normpath(os.path.join(rel, f))
+            want_name = top_name + "." + (relp[:-6] if relp.endswith(".cmake") else relp)
+            if len(ls) < 6 or ls[2] != want_name or ls[1] != "#" * len(want_name) or ls[3] != ls[1] or \
+                    ".. module:: " + want_name not in ls[:8]:
+                bad("C12", {"page": relp, "title": ls[2] if len(ls) > 2 else None, "want": want_name})
     # C13: page content equals the single-file run apart from title / module name
     for rel, (dirs, files) in list(exp.items())[:2]:
         for f in files[:1]:
@@ -389,7 +401,8 @@ def run(seed, tier, stats, pid=None):
     finally:
         shutil.rmtree(tmp, ignore_errors=True)
         logging.disable(logging.NOTSET)
-    want = {"C13": ("C13",), "C14": ("C14",), "C15": ("C15", "C13"), "C17": ("C17",), "C18": ("C18",)}.get(pid)
+    want = {"C12": ("C12",), "C13": ("C13",), "C14": ("C14",), "C15": ("C15", "C13"), "C17": ("C17",),
+            "C18": ("C18",)}.get(pid)
     if want is not None:
         violations = [v for v in violations if v["clause"] in want]
     return {"cases": cases, "distinct": cases, "samples": samples, "violations": violations,
